@@ -10,6 +10,7 @@ structure Proven (cr : Crypto) (signData : Bytes) (seq : Nat) (stored : Doc) (vm
   keyType : vm.type = es256k2019 ∨ vm.type = es256k2018
   keyLen : (b58Decode vm.pubKeyB58).length = 33
   verified : cr.verify (b58Decode vm.pubKeyB58) (signBytes signData seq) sig = true
+  noWrap : nextSeq seq ≠ 0      -- the handler refuses at the end of the sequence space (F23)
 
 theorem verifyOwnership_ok {cr : Crypto} {sd : Bytes} {seq : Nat} {doc : Doc} {vmID sig : Bytes} {n : Nat}
     (h : verifyOwnership cr sd seq doc vmID sig = .ok n) :
@@ -27,13 +28,36 @@ theorem verifyOwnership_ok {cr : Crypto} {sd : Bytes} {seq : Nat} {doc : Doc} {v
       · rename_i hl
         split at h
         · rename_i hver
-          simp at h
-          refine ⟨h.symm, vm, ⟨hv, ?_, by simpa using hl, hver⟩⟩
-          by_cases h1 : vm.type = es256k2019
-          · exact Or.inl h1
-          · by_cases h2 : vm.type = es256k2018
-            · exact Or.inr h2
-            · exact absurd ⟨h1, h2⟩ ht
+          split at h
+          · simp at h
+          · rename_i hz
+            simp at h
+            refine ⟨h.symm, vm, ⟨hv, ?_, by simpa using hl, hver, hz⟩⟩
+            by_cases h1 : vm.type = es256k2019
+            · exact Or.inl h1
+            · by_cases h2 : vm.type = es256k2018
+              · exact Or.inr h2
+              · exact absurd ⟨h1, h2⟩ ht
+        · simp at h
+
+/-- An accepted proof never produces the wrapped sequence 0 (F23): the handler refuses at the end of the sequence space. -/
+theorem verifyOwnership_ok_ne_zero {cr : Crypto} {sd : Bytes} {seq : Nat} {doc : Doc} {vmID sig : Bytes} {n : Nat}
+    (h : verifyOwnership cr sd seq doc vmID sig = .ok n) : n ≠ 0 := by
+  unfold verifyOwnership at h
+  cases hv : vmFrom doc doc.auths vmID with
+  | none => simp [hv] at h
+  | some vm =>
+    simp only [hv] at h
+    split at h
+    · simp at h
+    · split at h
+      · simp at h
+      · split at h
+        · split at h
+          · simp at h
+          · rename_i hz
+            simp at h
+            rw [← h]; exact hz
         · simp at h
 
 /-- A stored entry that is neither absent/empty nor a tombstone holds a non-empty document. -/
